@@ -22,6 +22,9 @@ EXPLANATION = (
     'setup failure is recorded as such. Fault model: every FS primitive '
     'that can raise, at every occurrence.'
     ' R14.6: a reused record is registered only after the fallible apply step (R1.5 order).')
+# round 3/4 additions
+EXPLANATION += (
+    " R14.3: the hand-off loop is never left early. R14.4: only exactly FileNotFoundError of the move may be turned into 'no file'. R14.7 = R4.8 (reference-count walks inverse). R14.8 = R10.2.")
 
 RESERVE = 'BuildDirs.started_building_file'
 RELEASE = 'BuildDirs.error_building_file'
